@@ -148,6 +148,54 @@ def run(ctx):
         if key not in seen:
             seen.add(key)
             violations.append(dict(key=key, replay=v["replay"], what=v["what"]))
+    # ---------------- "restarts detection": the call the frame loop makes at a marker (MotionProcessor.Reset) on the
+    # real processor + detector, streams that go on in a different scene after it; judged by the detector monitor
+    # (DetTrace.tla): with a fixed threshold everything it says about the frames after the reset, with the dynamic one
+    # the re-seeding of the background (the stale threshold after a reset is the recorded finding F-C09-1 of C09)
+    import fam_detect
+    drng = ctx.sub_rng("socket.restart-detection")
+    cs = []
+    for i in range(40 if tier == "quick" else 500):
+        dyn = (i % 2 == 0)
+        c = fam_detect.rand_cfg(drng, dyn=dyn)
+        if not dyn:
+            c["Tmin"], c["Tmax"] = 0, 0
+        fps = drng.choice([1, 2, 3])
+        steps = fam_detect.gen_stream(drng, c, drng.randint(6, 20), ffc=False, resets=False)
+        for k in range(drng.randint(1, 2)):
+            steps.append(dict(a="reset", stopFail=False))
+            steps += fam_detect.gen_stream(drng, c, drng.randint(6, 20), ffc=False, resets=False)
+        cs.append(dict(cfg=c, fps=fps, preview_secs=drng.choice([0, 1]), min_secs=drng.choice([1, 2]), max_secs=drng.choice([3, 5]),
+                       trig=drng.choice([1, 2]), steps=steps))
+    binm = ctx.go_test_build("./motion", "motion.test")
+    cinp, coutp = ctx.path("run", "restart.json"), ctx.path("run", "restart.ndjson")
+    json.dump(dict(scripts=cs), open(cinp, "w"))
+    rr = subprocess.run([binm, "-test.run", "^TestVerifStartArgs$"], env=dict(os.environ, VERIF_SCRIPT=cinp, VERIF_OUT=coutp),
+                        capture_output=True, text=True, timeout=1200)
+    if rr.returncode != 0 or not os.path.exists(coutp):
+        raise vlib.Infra("start-args driver failed: " + (rr.stdout + rr.stderr)[-3000:])
+    cviol, cnev = fam_detect.judge(ctx, coutp, "restartmon")
+    cev = vlib.read_ndjson(coutp)
+    after_reset, dynscript, a, dflag = [], [], False, False
+    for e in cev:
+        if e["ev"] == "dcfg":
+            a, dflag = False, bool(e.get("dyn"))
+        elif e["ev"] == "dreset":
+            a = True
+        after_reset.append(a); dynscript.append(dflag)
+    nafter = sum(1 for i, e in enumerate(cev) if e["ev"] == "dframe" and after_reset[i])
+    for (line, tags) in cviol:
+        if not after_reset[line - 1]:
+            continue
+        for tg in tags:
+            if (tg == "C15:not-reseeded") if dynscript[line - 1] else tg.split(":")[0] in ("C07", "C09"):
+                key = "C14:marker-does-not-restart-detection[%s]" % tg.split(":")[1]
+                if key not in seen:
+                    seen.add(key)
+                    e = cev[line - 1]
+                    rp = vlib.save_replay(ctx, key.replace(":", "_"), dict(family="socket", property="C14", clause=key,
+                                          observed={k: e[k] for k in e if k not in ("bg", "det_bg")}))
+                    violations.append(dict(key=key, replay=rp, what=json.dumps({k: e[k] for k in e if k not in ("bg", "det_bg")})[:300]))
     if witness_violates:
         rp = vlib.save_replay(ctx, "marker_in_frame", dict(family="socket", property="C14", clause="frame-begins-with-marker",
                               scenario=wit, continuous_files=got))
@@ -159,7 +207,7 @@ def run(ctx):
                     traces_validated_against_impl=len(hdrs) + len(runs) + 1,
                     samples=[dict(header=scripts[0]["header"], encoded=hdrs[0].get("text"), parsed=hdrs[0].get("parsed"))],
                     exhaustive=True, design={k: (sorted(v) if isinstance(v, set) else v) for k, v in consts.items()},
-                    headers_round_tripped=len(hdrs), truncation_points=cuts, e2e_runs=len(runs),
+                    headers_round_tripped=len(hdrs), restart_detection_scripts=len(cs), restart_detection_frames_after_reset=nafter, truncation_points=cuts, e2e_runs=len(runs),
                     e2e_frames=sum(1 for rn in runs if rn["kind"] == "predict" for e in rn["model_events"] if e["ev"] == "frame"),
                     e2e_markers=sum(1 for rn in runs if rn["kind"] == "predict" for e in rn["model_events"] if e["ev"] == "clear"),
                     evaluations=len(hdrs) + cuts + len(runs), distinct_nontrivial=len({json.dumps(s, sort_keys=True) for s in scripts}) + len(runs),
